@@ -86,7 +86,10 @@ def explore(ctx):
         fixed_texts = ['!!int x', '2001-13-45', '2001-02-30', '{a: !!int ""}', '!!float abc', '[!!bool maybe]',
                        '!!binary "@@@"', '!!timestamp nope', '[2001-02-30, 2001-01-01]', '{a: 2001-13-45}',
                        '!!int 0x_', '[2001-01-01, 2001-00-10]', '{a: [!!null x, !!int +]}', '12', '2001-01-01',
-                       '[2001-01-01]', '{a: 1}', '!!set {a, b}', '!!omap [a: 1]', '!!int "1"  # é']
+                       '[2001-01-01]', '{a: 1}', '!!set {a, b}', '!!omap [a: 1]', '!!int "1"  # é',
+                       '&a [*a]', 'top: &a\n  - 1\n  - *a\n', '&a {k: *a}', '&a {? *a : 1}', '[&b {x: 1}, *b]',
+                       '{a: &c 2001-01-01, b: *c}', '*undefined', '{a: 1, a: 2}', '{a: {b: 1}', '[1, 2',
+                       'a: b: c', '"unterminated', '\ttab: 1', 'é: ü']
         for ty, load in fixed_loads:
             for text in fixed_texts:
                 def oc(fn):
@@ -147,7 +150,9 @@ def explore(ctx):
                 ctx.count('dumps_json_error:' + type(e).__name__)
             for fmt, want, do in variants:
                 got = {}
-                fn = os.path.join(tmp, 'out_{}.txt'.format(made))
+                # the name of the sink says nothing about the format
+                fn = os.path.join(tmp, 'out_{}{}'.format(made, rng.choice(
+                    ['.txt', '.yaml', '.yml', '.json', '.JSON', '', '.dat', ' with space.json', '.é'])))
                 try:
                     do(fn)
                     got['file name'] = open(fn, encoding='utf-8').read()
